@@ -749,6 +749,34 @@ fn rand_script(r: &mut Rng) -> Value {
     json!({"script": script, "srcs": srcs, "tgts": tgts})
 }
 
+/// an expression over the evaluation signature: inputs are declared variables, every other variable is
+/// defined by exactly one operator (so the forgotten term is single-writer and acyclic)
+fn rand_eval_script(r: &mut Rng) -> Value {
+    let nin = r.range(1, 3);
+    let mut script: Vec<Value> = (0..nin).map(|_| json!({"k": "var", "label": 0})).collect();
+    let mut nv = nin;
+    for _ in 0..r.range(1, 7) {
+        let c = r.below(10);
+        if c < 6 {
+            let k = *r.pick(&["add", "mul", "xor", "and"]);
+            script.push(json!({"k": k, "l": r.below(nv), "r": r.below(nv)}));
+            nv += 1;
+        } else if c < 8 {
+            script.push(json!({"k": *r.pick(&["neg", "not"]), "l": r.below(nv)}));
+            nv += 1;
+        } else if c < 9 {
+            script.push(json!({"k": "op", "vars": [r.below(nv), r.below(nv)], "results": [0, 0], "x": 13}));
+            nv += 2;
+        } else {
+            script.push(json!({"k": "op", "vars": [], "results": [0], "x": 6}));
+            nv += 1;
+        }
+    }
+    let srcs: Vec<usize> = (0..nin).collect();
+    let tgts: Vec<usize> = (0..r.range(1, 3)).map(|_| r.below(nv)).collect();
+    json!({"script": script, "srcs": srcs, "tgts": tgts})
+}
+
 /// a random pair of hypergraphs with a candidate morphism: a genuine inclusion, sometimes perturbed
 fn rand_morphism(r: &mut Rng) -> Value {
     let mut m = rand_inclusion(r);
@@ -774,8 +802,14 @@ fn drive_progs(out: &mut impl Write, r: &mut Rng, budget: usize, props: &Value, 
             let f = rand_diagram(r, 3, 3, None);
             let t = optic_for(r, &f);
             (*r.pick(&["optic.map_arrow", "optic.map_adapted", "laxf.optic_map_adapted"]), json!({"optic": t, "f": f}))
-        } else if choice < 55 {
+        } else if choice < 45 {
             ("var.script", rand_script(r))
+        } else if choice < 55 {
+            // expressions over the evaluation signature only, evaluated end to end
+            let mut sc = rand_eval_script(r);
+            let k = arr(&sc["srcs"]).len();
+            sc["inputs"] = json!([(0..k).map(|_| r.below(256)).collect::<Vec<_>>(), (0..k).map(|_| r.below(256)).collect::<Vec<_>>()]);
+            ("var.script_eval", sc)
         } else if choice < 80 {
             let m = rand_morphism(r);
             (*r.pick(&["arrow.new", "arrow.new", "arrow.is_monomorphism"]), m)
